@@ -318,7 +318,22 @@ def _meta_summaries(eng):
         return h
     for nm, ty in (("dev", "u64"), ("rdev", "u64"), ("ino", "u64"), ("uid", "u32"), ("gid", "u32"), ("st_blocks", "u64"), ("st_size", "u64")):
         S(r"MetadataExt>::%s$" % nm, attr(nm, ty))
-    S(r"^(std::fs::)?Metadata::permissions$", attr("permissions", None))
+    def s_perms(eng, st, callee, args, dty):
+        m = deref_ref(eng, st, args[0])
+        if "st_mode" not in m.attrs:
+            m.attrs["st_mode"] = eng.fresh_int(st, "u32", m.name + "_st_mode")
+        if "permissions" not in m.attrs:
+            m.attrs["permissions"] = OpaqueV("permissions", m.name + "_permissions", {"of": m.name, "mode": m.attrs["st_mode"]})
+        return Outcome(m.attrs["permissions"])
+    S(r"^(std::fs::)?Metadata::permissions$", s_perms)
+
+    def s_stmode(eng, st, callee, args, dty):
+        m = deref_ref(eng, st, args[0])
+        if "st_mode" not in m.attrs:
+            m.attrs["st_mode"] = eng.fresh_int(st, "u32", m.name + "_st_mode")
+        return Outcome(m.attrs["st_mode"])
+    S(r"MetadataExt>::(st_)?mode$", s_stmode)
+    S(r"PermissionsExt>::from_mode$|^(std::fs::)?Permissions::from_mode$", lambda e, st, c, a, d: Outcome(OpaqueV("permissions", None, {"mode": a[0]})))
     S(r"^(std::fs::)?Metadata::len$", attr("len", "u64"))
 
     def s_time(which):
@@ -382,9 +397,9 @@ def lemma_copy_node(ctx):
         if not (isinstance(raw_t, IntV) and isinstance(raw_m, IntV)):
             ctx.fail("C14: node type and permission bits come from the source's st_mode", repr((ftype, mode)))
         else:
-            src_mode = z3.Int("meta_src_permissions_mode")
+            src_mode = z3.Int("meta_src_st_mode")
             names = [str(d) for d in z3.z3util.get_vars(raw_t.t)]
-            ok1 = any(n.startswith("meta_src_permissions_mode") for n in names)
+            ok1 = any(n.startswith("meta_src_st_mode") for n in names)
             (ctx.passed if ok1 else ctx.fail)("C14: node type and permission bits come from the source's st_mode", str(names))
             ctx.lemma(eng, "C14: type and permission bits are taken from the same st_mode value", p.pc, raw_t.t == raw_m.t)
         dn = [str(d) for d in z3.z3util.get_vars(dev.t)] if isinstance(dev, IntV) else []
@@ -695,11 +710,22 @@ def lemma_metadata_helpers(ctx):
         xa = [e for e in p.trace if e.name == "copy_xattr"]
         if len(xa) != 1 or xa[0].args != ["infd", "outfd"]:
             ctx.fail("C10: extended attributes are copied from the source to the destination", str(trace_names(p)))
-        if len(sp) != 1 or sp[0].args[0] != "outfd" or getattr(sp[0].args[1], "attrs", {}).get("of") != "meta_infd":
+        pm = sp[0].args[1] if len(sp) == 1 else None
+        src_mode = None
+        for e in p.trace:
+            pass
+        if len(sp) != 1 or sp[0].args[0] != "outfd" or not isinstance(pm, OpaqueV) or not isinstance(pm.attrs.get("mode"), IntV):
             ctx.fail("C10: the destination receives the source's permission bits (full st_mode)", repr(sp[0].args if sp else None))
         else:
             okc += 1
-            ctx.passed("C10: the destination receives the source's permission bits (full st_mode)")
+            applied = pm.attrs["mode"].t
+            vs = {str(d): d for d in z3.z3util.get_vars(applied)}
+            srcv = [v for k, v in vs.items() if k.startswith("meta_infd_st_mode")]
+            if not srcv:
+                ctx.fail("C10: the destination receives the source's permission bits (full st_mode)", "mode applied does not come from the source's metadata: %s" % applied)
+            else:
+                ctx.lemma(eng, "C10: all twelve permission bits (rwx for u/g/o, set-uid, set-gid, sticky) of the source reach the destination", p.pc,
+                          applied % 4096 == srcv[0] % 4096)
         if not is_ok(p.ret):
             ctx.fail("C10: xattr failures are tolerated (warning), everything else succeeded => Ok", str(trace_names(p)))
     (ctx.passed if okc else ctx.fail)("witness: copy_permissions success", "")
